@@ -399,6 +399,145 @@ def run_optional_upstream(flavour: str) -> dict:
     return {"reproduced": bool(hit), "other": other, "report": rep}
 
 
+# ---------------------------------------------------------------------------------------------
+# Several tracked environment variables per step, several changed at once, a subset reverted
+# ---------------------------------------------------------------------------------------------
+ENV_MULTI_NAMES = ["VA", "VB", "VC", "VD"]
+
+
+def gen_env_multi(rng: random.Random) -> tuple[e3.Project, list]:
+    """A project whose steps track 2-4 variables each (declared with the step; one script step may
+    amend a further one), and a history of environments: several variables change at once, later a
+    proper subset of them goes back to an earlier value while the others keep the new one
+    ((A,B) -> (A',B') -> (A,B') and the like)."""
+    names = ENV_MULTI_NAMES
+    nsteps = rng.randint(1, 3)
+    plan = [{"op": "static", "paths": ["src.txt"]}]
+    commands, scripts = {}, {}
+    used = set()
+    for i in range(nsteps):
+        env = sorted(rng.sample(names, rng.choice([2, 2, 3, 4]) if i == 0 else rng.choice([1, 2, 3])))
+        used.update(env)
+        label = f"te{i}"
+        plan.append({"op": "step", "label": label, "inp": ["src.txt"] if rng.random() < 0.6 else [],
+                     "out": [f"oe{i}.txt"], "env": env})
+        commands[label] = [{"op": "getenv", "name": n} for n in env] + [{"op": "auto"}]
+    if rng.random() < 0.45:
+        decl = sorted(rng.sample(names, rng.choice([1, 2])))
+        amend = sorted(rng.sample([n for n in names if n not in decl], rng.choice([1, 2])))
+        used.update(decl + amend)
+        scripts["we.py"] = ([{"op": "amend", "env": amend}] + [{"op": "getenv", "name": n} for n in decl + amend]
+                            + [{"op": "auto"}])
+        plan += [{"op": "static", "paths": ["we.py"]},
+                 {"op": "run", "label": "./we.py", "inp": [], "out": ["owe.txt"], "env": decl}]
+    scripts["plan.py"] = plan
+    env0 = {n: (None if rng.random() < 0.15 else f"{n.lower()}0") for n in names}
+    project = e3.Project({"src.txt": "source v0\n"}, {"scripts": scripts, "commands": commands}, dict(env0))
+    used = sorted(used)
+    envs, cur, counter = [], dict(env0), 0
+    seen = {n: [env0[n]] for n in names}
+    # phase 1: at least two variables change at once
+    first = rng.sample(used, min(len(used), rng.choice([2, 2, 3])))
+    for n in first:
+        counter += 1
+        cur[n] = f"{n.lower()}{counter}"
+        seen[n].append(cur[n])
+    envs.append(dict(cur))
+    # phase 2: a proper, non-empty subset of them goes back; the others keep the new value
+    back = rng.sample(first, rng.randint(1, max(1, len(first) - 1)))
+    for n in back:
+        cur[n] = env0[n]
+    envs.append(dict(cur))
+    for _ in range(rng.randint(0, 2)):
+        for n in rng.sample(used, rng.randint(1, min(3, len(used)))):
+            if rng.random() < 0.6:
+                cur[n] = rng.choice(seen[n])
+            else:
+                counter += 1
+                cur[n] = f"{n.lower()}{counter}"
+                seen[n].append(cur[n])
+        envs.append(dict(cur))
+    return project, envs
+
+
+def run_env_multi(item: dict) -> dict:
+    """item: {"seed", optional "project", "envs"}.  Restart flavour only (a watching director does not see
+    the environment of the shell change).  After the start in every environment of the history: return code 0,
+    every file equal to a from-scratch build in that environment, and a rebuild with nothing changed does
+    nothing."""
+    seed = item["seed"]
+    rng = random.Random(f"c04-envmulti-{seed}")
+    if "project" in item:
+        project, envs = e3.Project.from_json(item["project"]), copy.deepcopy(item["envs"])
+    else:
+        project, envs = gen_env_multi(rng)
+    report = {"seed": seed, "flavour": "restart", "kind": "env_multi", "failures": [], "stats": {}, "nbuilds": 0,
+              "project": project.to_json(), "envs": envs}
+    stats = report["stats"]
+
+    def count(key, n=1):
+        stats[key] = stats.get(key, 0) + n
+
+    def fail(sig, detail, extra=None):
+        report["failures"].append({"signature": sig, "detail": detail, **(extra or {})})
+
+    kw = build_kw(item)
+    proj = project.clone()
+    try:
+        with tempfile.TemporaryDirectory(prefix="c04-env-") as root:
+            proj.materialise(root)
+
+            def build():
+                report["nbuilds"] += 1
+                return e3.build(root, proj.program, env=dict(proj.env), **kw)
+
+            ref = build()
+            if ref.returncode != OK_RC or ref.error:
+                count(f"envmulti:first-build-rc:{ref.returncode}")
+                return report
+            for k, env in enumerate(envs):
+                changed = sorted(n for n in env if env[n] != proj.env.get(n))
+                proj.env = dict(env)
+                inc = build()
+                count("envmulti:restarts")
+                count(f"envmulti:vars_changed_at_once:{len(changed)}")
+                if inc.error or inc.returncode != OK_RC:
+                    fail("oracle:env:restart:multi-var-build-failed",
+                         f"environment {k} ({changed} changed): rc {inc.returncode} {inc.error}", {"phase": k})
+                    return report
+                scratch = e3.from_scratch(proj, **kw)
+                report["nbuilds"] += 1
+                stale = sorted(p for p in set(inc.files) | set(scratch.files) if inc.files.get(p) != scratch.files.get(p))
+                if stale:
+                    fail("oracle:env:restart:multi-var-output-stale",
+                         f"environment {k}: variables changed since the previous start {changed}; files that differ "
+                         f"from a from-scratch build in this environment: {stale}; executed {inc.executed()}",
+                         {"phase": k, "changed": changed, "stale": stale})
+                    return report
+                if inc.executed():
+                    count("envmulti:nontrivial")
+                # A rebuild with nothing changed: after the last environment always, in between only sometimes
+                # (it makes the next start compare against freshly recorded values and so hides a start that
+                # recorded only part of what it saw).
+                if k == len(envs) - 1 or rng.random() < 0.3:
+                    again = build()
+                    count("noop:restart:envmulti")
+                    devs = compare_noop(inc, again, "restart", "nochange")
+                    seen_changed = [e[1] for e in again.events if e[0] == "UPDATED"]
+                    if seen_changed:
+                        devs.append(("oracle:noop:restart:nochange:variable-reported-changed",
+                                     f"the start reports changes although nothing changed: {seen_changed}"))
+                    for sig, detail in devs:
+                        fail(sig, f"after the start in environment {k}: " + detail, {"phase": k})
+                    if devs:
+                        return report
+    except e3.E3Timeout as exc:
+        report["timeout"] = f"{exc.args[0]} {exc.args[1] if len(exc.args) > 1 else ''}"
+    except e3.E3Error as exc:
+        report["timeout"] = f"E3Error: {exc}"
+    return report
+
+
 def build_kw(item: dict) -> dict:
     return {"resources": "tok:1", "njob": item.get("njob", 1), "timeout": item.get("timeout", 60)}
 
@@ -406,6 +545,8 @@ def build_kw(item: dict) -> dict:
 def run_case(item: dict) -> dict:
     """item: {"seed", "flavour": "restart"|"watch", "max_phases", "njob", optional "project",
     "history", "cone_edits", "skip_noop", "cone_schedule"}.  Returns a JSON-able report."""
+    if item.get("kind") == "env_multi":
+        return run_env_multi(item)
     seed = item["seed"]
     flavour = item["flavour"]
     rng = random.Random(f"c04-e3-{seed}-{flavour}")
